@@ -6,6 +6,7 @@ from .util import build, CLASSES
 
 NUM = re.compile(r"-?\d+")
 _MISSING = object()
+STORED = ("x", "y")
 
 
 def canon_count_error(e):
@@ -63,7 +64,8 @@ def impl(case):
     root, index = build(case["tree"], cls)
     if issubclass(cls, CLASSES["nm"]):
         for lab, name, val in case["attrs"]:
-            setattr(index[lab], name, val)
+            if name in STORED:       # the table also lists what every node has anyway: label, properties, class defaults
+                setattr(index[lab], name, val)
     mod = cachedsearch if case.get("module") == "cachedsearch" else search
     start = index[case["start"]]
     thunks = [_thunk(mod, start, q) for q in case["queries"]]
